@@ -9,6 +9,10 @@ import (
 	"github.com/titpetric/vuego/internal/helpers"
 )
 
+// maxEvalDepth bounds the nesting of elements, includes and slots in one render,
+// so that a template that includes itself yields an error instead of exhausting the stack.
+const maxEvalDepth = 1000
+
 // evaluateChildren evaluates the children of a node without allocating a temporary slice.
 func (v *Vue) evaluateChildren(ctx VueContext, node *html.Node, depth int) ([]*html.Node, error) {
 	childList := make([]*html.Node, 0, diff.CountChildren(node))
@@ -19,6 +23,10 @@ func (v *Vue) evaluateChildren(ctx VueContext, node *html.Node, depth int) ([]*h
 }
 
 func (v *Vue) evaluate(ctx VueContext, nodes []*html.Node, depth int) ([]*html.Node, error) {
+	if depth > maxEvalDepth {
+		return nil, fmt.Errorf("in %s: nesting depth exceeded maximum of %d, possible circular include or slot", ctx.FromFilename, maxEvalDepth)
+	}
+
 	var result []*html.Node
 
 	for i := 0; i < len(nodes); i++ {
